@@ -51,19 +51,18 @@ def _run(cmd, path, timeout):
     return first, out, time.time() - t0
 
 def solver_cmds(txt, timeout):
-    ms = int(timeout * 1000)
-    z3n = ("z3-%s" % _z3_version(), [Z3_NEW, "-T:%d" % int(timeout), "-smt2"])
-    z3o = ("z3-4.8.12", [Z3_OLD, "-T:%d" % int(timeout), "-smt2"])
-    cvc = ("cvc5-1.0.3", [CVC5, "--lang=smt2", "--strings-exp", "--tlimit=%d" % ms, "--produce-models"])
-    z3e = ("z3-%s(e-matching)" % _z3_version(), [Z3_NEW, "-T:%d" % max(5, int(timeout / 3)), "smt.mbqi=false", "-smt2"])
+    """Portfolio for one obligation; `timeout` is the TOTAL budget, split among the configurations."""
+    def z3c(name, exe, secs, *opts): return (name, [exe, "-T:%d" % max(2, int(secs))] + list(opts) + ["-smt2"], secs)
+    def cvc(name, secs, *opts): return (name, [CVC5, "--lang=smt2", "--tlimit=%d" % int(max(2, secs) * 1000), "--produce-models"] + list(opts), secs)
+    zv = _z3_version()
     if uses_strings(txt):
-        return [cvc, z3e, z3n]
-    cvce = ("cvc5-1.0.3(enum-inst)", [CVC5, "--lang=smt2", "--enum-inst", "--tlimit=%d" % int(ms / 2), "--produce-models"])
+        return [cvc("cvc5-1.0.3", timeout * 0.5, "--strings-exp"), z3c("z3-%s(e-matching)" % zv, Z3_NEW, timeout * 0.15, "smt.mbqi=false"),
+                z3c("z3-%s" % zv, Z3_NEW, timeout * 0.35)]
     if "forall" in txt or "exists" in txt:
-        # pure E-matching first (stable for unsat proofs with quantifiers), then enumerative instantiation, then the complete configurations
-        z3e = (z3e[0], [Z3_NEW, "-T:%d" % max(5, int(timeout / 6)), "smt.mbqi=false", "-smt2"])
-        return [z3e, cvce, z3n, z3o]
-    return [z3n, cvc, z3o]
+        # pure E-matching first (stable for unsat proofs with quantifiers), then enumerative instantiation, then complete configurations
+        return [z3c("z3-%s(e-matching)" % zv, Z3_NEW, timeout * 0.15, "smt.mbqi=false"), cvc("cvc5-1.0.3(enum-inst)", timeout * 0.25, "--enum-inst"),
+                z3c("z3-%s" % zv, Z3_NEW, timeout * 0.4), z3c("z3-4.8.12", Z3_OLD, timeout * 0.2)]
+    return [z3c("z3-%s" % zv, Z3_NEW, timeout * 0.5), cvc("cvc5-1.0.3", timeout * 0.3), z3c("z3-4.8.12", Z3_OLD, timeout * 0.2)]
 
 _zv = None
 def _z3_version():
@@ -144,9 +143,9 @@ def solve_one(job, timeout, workdir):
     t_all = 0.0
     cmds = solver_cmds(txt, timeout)
     if want == "sat":      # cover / vacuity query: only 'unsat' matters, keep it cheap
-        timeout = min(timeout, 8); cmds = solver_cmds(txt, timeout)[:2]
-    for sname, cmd in cmds:
-        status, out, secs = _run(cmd, path, timeout)
+        timeout = min(timeout, 16); cmds = [c for c in solver_cmds(txt, timeout) if "e-matching" not in c[0]][:2]
+    for sname, cmd, budget in cmds:
+        status, out, secs = _run(cmd, path, budget)
         t_all += secs
         attempts.append((sname, status, round(secs, 3)))
         if status == "unsat":
@@ -155,7 +154,7 @@ def solve_one(job, timeout, workdir):
             continue      # without model-based instantiation a 'sat' is not trusted; ask the complete configuration
         if status == "sat":
             return Result(ob, "sat", sname, t_all, model=parse_values(out, names), raw=out[:4000], smt_path=path, attempts=attempts)
-    gaveup = any(st_ == "unknown" and secs < timeout * 0.5 for _, st_, secs in attempts)
+    gaveup = any(st_ == "unknown" for _, st_, secs in attempts)
     return Result(ob, "gaveup" if gaveup else "timeout", "/".join(a[0] for a in attempts), t_all, raw=str(attempts), smt_path=path, attempts=attempts)
 
 def solve_all(obs, timeout=60, jobs=None, workdir=None):
